@@ -284,10 +284,20 @@ func (x *Exec) builtinAppend(fr *Frame, st *State, v *ssa.Call) {
 		x.assume(x.iLe(newCap, bigLit(pow2_48)))
 	}
 	h := x.heapGet(st, hn, hs)
-	sarr := Term{app("select", h, sref), asrt}
+	sarr := x.declareEq("sarr", Term{app("select", h, sref), asrt})
 	// result backing array: either s's array with t copied at soff+slen, or a fresh
 	// array holding s[0:len] then t
 	rarr := x.declare("aarr", asrt)
+	// the old elements survive (stated with a trigger on the OLD array so that facts
+	// about s's elements reach quantifiers over the result)
+	{
+		m := "m!a"
+		mt := Term{m, x.S.Idx()}
+		keep := fmt.Sprintf("(forall ((%s %s)) (! (=> (and %s %s) (= (select %s %s) (select %s %s))) :pattern ((select %s %s))))",
+			m, x.S.Idx(), x.iLe(soff, mt).S, x.iLt(mt, x.iAdd(soff, slen)).S,
+			rarr.S, mkIte(fits, mt, x.iSub(mt, soff)).S, sarr.S, m, sarr.S, m)
+		x.assume(Term{keep, "Bool"})
+	}
 	k := "k!a"
 	ksort := x.S.Idx()
 	kt := Term{k, ksort}
